@@ -233,6 +233,8 @@ pub fn check_estimate(c: &EstCase) -> Check {
     // both public ways to obtain an empty statistics object must behave alike
     let mut stats = if c.history.len() % 2 == 0 { ChunkTimingStats::new() } else { ChunkTimingStats::default() };
     let mut model: BTreeMap<(u8, u8, u8), VecDeque<(i64, usize)>> = BTreeMap::new();
+    let clone_at = if c.history.len() % 3 == 1 { c.history.len() / 3 } else { usize::MAX };
+    let mut recorded = 0usize;
     for h in &c.history {
         let (t, w, ch) = if h.same_key {
             match queried_key {
@@ -248,6 +250,11 @@ pub fn check_estimate(c: &EstCase) -> Check {
             channel_configuration: channel_of(ch),
         };
         no_panic("add_timing", || stats.add_timing(key, Duration::milliseconds(h.duration_ms as i64), h.attempts as usize))?;
+        // a history may span a clone: the copy continues where the original stood (at one third of the history)
+        if recorded == clone_at {
+            stats = no_panic("ChunkTimingStats::clone", || stats.clone())?;
+        }
+        recorded += 1;
         let q = model.entry((t, w, ch)).or_default();
         q.push_back((h.duration_ms as i64, h.attempts as usize));
         if q.len() > 10 {
